@@ -25,6 +25,18 @@ def pRoot : P (Except Err Img) := do
   let date ← P.list (P.opt P.int)
   pure (mkRoot rid cs series scalar T time date)
 
+/-- root with explicit `reference_date`: same as `pRoot`, then `default` or an optional integer -/
+def pRootRef : P (Except Err Img) := do
+  let rid ← P.nat
+  let cs ← pCS
+  let series ← P.bool; let scalar ← P.bool; let T ← P.nat
+  let time ← P.opt (P.list (P.opt P.rat))
+  let date ← P.list (P.opt P.int)
+  let t ← P.tok
+  let refArg ← (if t = "default" then pure none else if t = "none" then pure (some none) else
+    match t.toInt? with | some r => pure (some (some r)) | none => failure : P (Option (Option Int)))
+  pure (mkRootR rid cs series scalar T time date refArg)
+
 def pSlice : P PySlice := do let a ← P.opt P.int; let b ← P.opt P.int; pure (a, b)
 
 def pStep : P Step := do
@@ -89,6 +101,12 @@ def handle : P String := do
   | "stack" => do
     let roots ← P.list pRoot; let steps ← pSteps
     pure (showExcept showImg (do let ims ← roots.mapM id; let s ← stack ims; s.run steps))
+  | "stackr" => do
+    let roots ← P.list pRootRef; let steps ← pSteps
+    pure (showExcept showImg (do let ims ← roots.mapM id; let s ← stack ims; s.run steps))
+  | "appendr" => do
+    let a ← pRootRef; let b ← pRootRef; let off ← P.opt P.rat; let steps ← pSteps
+    pure (showExcept showImg (do let x ← a; let y ← b; let s ← x.append y off; s.run steps))
   | "append" => do
     let a ← pRoot; let b ← pRoot; let off ← P.opt P.rat; let steps ← pSteps
     pure (showExcept showImg (do let x ← a; let y ← b; let s ← x.append y off; s.run steps))
